@@ -613,6 +613,13 @@ func checkC05() fw.Check {
 				id := fmt.Sprintf("C05/e2e-overlap/%s", proto)
 				cases = append(cases, fw.Case{ID: id, Bubble: true, Run: func(c *fw.Ctx) { runC15Case(c, id, rq); c.Nontrivial("e2e-overlap/" + rq.proto) }})
 			}
+			for i, proto := range []string{"icmp", "udp"} {
+				// the target's answer takes longer than the per-probe timeout (600 ms) and still arrives inside the single
+				// probe's listening window (timeout + one pause of 20 ms): the sample is that RTT, as the hop's is
+				rq := c15Req{proto: proto, q: 1, e: 3, fetcher: "none", delayPerm: i, reach: true, cancelAt: -1, slowDest: 608 * time.Millisecond}
+				id := fmt.Sprintf("C05/e2e-slower-than-timeout/%s", proto)
+				cases = append(cases, fw.Case{ID: id, Bubble: true, Run: func(c *fw.Ctx) { runC15Case(c, id, rq); c.Nontrivial("e2e-slower-than-timeout/" + rq.proto) }})
+			}
 			for _, fwTTL := range []int{2, 3, 5} {
 				// a firewall on the path rejects the probes (destination-unreachable), the destination stays silent: no end-to-end answer
 				rq := c15Req{proto: "udp", q: 1, e: 3, fetcher: "none", reach: true, cancelAt: -1, firewall: fwTTL}
